@@ -27,6 +27,7 @@ const (
 	EvOpt    = 16 // optional key read         C = value
 	EvUpdIn  = 17 // management op from inside a rule: C = op index
 	EvKey    = 18 // forRange loop key seen by the loop body  C = key
+	EvObj    = 19 // method invoked on an object kept in a local  C = the object's mark
 	EvCallB  = 20 // API call invoked          B = method, C = client
 	EvCallR  = 21 // API call returned         B = method, C = flags (1 err, 2 panic)
 	EvMgmtB  = 30 // management op invoked     A = op index
@@ -61,7 +62,17 @@ type Resp struct {
 	G0, G1, G2, G3, G4, G5, G6, G7 int64
 }
 
-type Nobj struct{ X int64 }
+type Nobj struct {
+	X int64
+	h *H
+}
+
+// Ping reports which object the method was invoked on.
+func (n *Nobj) Ping(r int64) {
+	if n != nil && n.h != nil {
+		simrt.Emit(EvObj, int64(n.h.c.Idx), r, n.X)
+	}
+}
 
 type OptObj struct{ ID int64 }
 
@@ -136,7 +147,7 @@ func (h *H) B(r, p int64) {
 	if pl.Fire == int(p) {
 		fire = 1
 	}
-	if rd := h.sc.Rule(int(r)); rd != nil && int(p) < len(rd.Secs) && (rd.Secs[p].Kind == SecReader) {
+	if rd := h.sc.Rule(int(r)); rd != nil && int(p) < len(rd.Secs) && (rd.Secs[p].Kind == SecReader || rd.Secs[p].Kind == SecLocObjReader) {
 		fire = 1 // a reader rule always faults: it reads a local it never assigned
 	}
 	if rd := h.sc.Rule(int(r)); rd != nil && int(p) == len(rd.Secs) && rd.Ret == RetUnexp {
@@ -193,7 +204,7 @@ func (h *H) K(r, code int64) int64 {
 func (h *H) KeyIs(r, k int64) { simrt.Emit(EvKey, int64(h.c.Idx), r, k) }
 
 // Obj makes a rule-local struct.
-func (h *H) Obj(r int64) *Nobj { return &Nobj{X: r + 500} }
+func (h *H) Obj(r int64) *Nobj { return &Nobj{X: r + 500, h: h} }
 
 // KA is a conc child that was handed a field of a rule-local struct.
 func (h *H) KA(r, code, x int64) int64 {
